@@ -456,3 +456,35 @@ def continuity(where, tab_vals, sv, xif, order=(1, 0)):
         except Exception as ex:  # noqa: BLE001
             rec["err"] = type(ex).__name__ + ":" + str(ex)[:100]
     return rec
+
+
+def cheap_sibling(th, op):
+    """A solve earlier in the same process on almost the same raw cards: another initial nf at the same scale and
+    an x-grid with the same size and end points but other interior nodes, with both sectors skipped (so it costs
+    no integration).  Its result is thrown away; whatever module-level state it leaves behind (memo tables keyed
+    too coarsely) must not reach the next solve."""
+    import copy
+
+    import eko
+    from eko.io import runcards
+
+    th2, op2 = copy.deepcopy(th), copy.deepcopy(op)
+    mu0, nf0 = op2["init"]
+    op2["init"] = (mu0, nf0 + 1 if nf0 < 6 else nf0 - 1)
+    xs = [float(x) for x in op2["xgrid"]]
+    op2["xgrid"] = [xs[0]] + [x ** (0.93 if k % 2 else 1.06) for k, x in enumerate(xs[1:-1])] + [xs[-1]]
+    op2["xgrid"] = sorted(set(op2["xgrid"]))
+    op2.setdefault("debug", {})
+    op2["debug"]["skip_singlet"] = True
+    op2["debug"]["skip_non_singlet"] = True
+    import logging
+
+    logging.disable(logging.CRITICAL)
+    try:
+        with scratch() as root:
+            try:
+                eko.solve(runcards.TheoryCard.from_dict(th2), runcards.OperatorCard.from_dict(op2), root / "sibling.tar")
+            except Exception:  # noqa: BLE001 - only its side effects matter
+                pass
+    finally:
+        logging.disable(logging.NOTSET)
